@@ -171,16 +171,16 @@ theorem C07_swap_exchanges {s s' : St} {i j : Nat} {a b : Obj} (ha : s.pool[i]? 
   · cases h
   · cases h; exact ⟨rfl, rfl, rfl, rfl, rfl⟩
 
-/-- `soft_link()` and arrays over external memory (user data, slices of a `FixedArray`) hold no Storage and never
-    touch a count -/
+/-- `soft_link()` and objects over external memory (user data, slices of a `FixedArray`, `FixedArray::diag_matrix()`)
+    hold no Storage and never touch a count -/
 theorem C07_soft_external_hold_nothing {s s' : St} :
     (∀ j b, s.pool[j]? = some b → softLinkAt s j = .ok s' →
         s'.pool = s.pool ++ [{ b with storage := none }] ∧ s'.heap = s.heap ∧ s'.created = s.created ∧
         s'.deleted = s.deleted) ∧
-    (∀ x off n, newExternalAt s x off n = .ok s' →
-        s'.pool = s.pool ++ [{ kind := .vec, region := .ext x, off := off, storage := none, len := n.toNat, stride := 1 }] ∧
+    (∀ x off n dm, newExternalAt s x off n dm = .ok s' →
+        (∃ o, s'.pool = s.pool ++ [o] ∧ o.region = .ext x ∧ o.storage = none) ∧
         s'.heap = s.heap ∧ s'.created = s.created ∧ s'.deleted = s.deleted) :=
-  ⟨fun _ _ hb h => softLink_holds_nothing h hb, fun _ _ _ h => newExternal_holds_nothing h⟩
+  ⟨fun _ _ hb h => softLink_holds_nothing h hb, fun _ _ _ _ h => newExternal_holds_nothing h⟩
 
 /-- allocation faults: `resize` returns in exactly one of three ways — cleared; allocated; or, `std::bad_alloc` having
     come out of `new Storage`, with the old link given back exactly once (the heap is that after the one `releaseAt`),
@@ -339,6 +339,28 @@ example : ((run init witnessKinds).heap.map (·.nLinks) = [3, 3, 1]) ∧ (run in
     (run init (witnessKinds ++ List.replicate 7 (.destroy 0))).pool = [] ∧
     (run init (witnessKinds ++ List.replicate 7 (.destroy 0))).gradReg = 0 ∧
     nStorageObjects (run init (witnessKinds ++ List.replicate 7 (.destroy 0))) = 0 := by
+  decide
+
+/-- cross-class views share and count exactly one link each: `v.diag_matrix()` outlives its vector, `value(a)` of an
+    active vector is a passive vector on the same Storage whose gradients stay registered until the LAST holder goes,
+    `inactive_link()` of a special matrix, `diag_vector` / `T()` / `submatrix_on_diagonal` of an active special matrix -/
+def witnessCross : List Op :=
+  [.new .vec 4 0 1, .view 0 .diagMatrix, .view 1 (.diag 0), .destroy 0,          -- D = v.diag_matrix(); D.diag_vector(); ~v
+   .new .avec 3 0 1, .view 2 .inactive, .view 2 .diagMatrix, .destroy 2,          -- value(a), a.diag_matrix(); ~a
+   .new .symm 3 0 1, .view 4 .inactive, .new .asymm 3 0 1, .view 6 (.diag 1), .view 6 .transpose, .view 6 (.subDiag 1 2)]
+
+example : ((run init witnessCross).heap.map (·.nLinks) = [2, 2, 2, 4]) ∧
+    (run init witnessCross).pool.map (·.kind) = [.diag, .vec, .dvec, .adiag, .symm, .symm, .asymm, .avec, .asymm, .asymm] ∧
+    (run init witnessCross).gradReg = 3 + 9 ∧
+    (match readView (run init witnessCross) ⟨.diag, .sto 0, 0, some 0, 4, 0, 0, 0⟩ with | .ok vs => vs | .error _ => []) = [1, 2, 3, 4] ∧
+    -- the passive vector alone keeps the active Storage (and its gradients) alive; they go with it, once
+    (run init (witnessCross ++ [.destroy 3])).gradReg = 12 ∧ (run init (witnessCross ++ [.destroy 3, .destroy 2])).gradReg = 9 ∧
+    (run init (witnessCross ++ List.replicate 10 (.destroy 0))).pool = [] ∧
+    nStorageObjects (run init (witnessCross ++ List.replicate 10 (.destroy 0))) = 0 ∧
+    (run init (witnessCross ++ List.replicate 10 (.destroy 0))).gradReg = 0 ∧
+    -- requests that are rejected: an off-diagonal of a DiagMatrix, diag_matrix() of a soft link of an active vector
+    errOf (step (run init witnessCross) (.view 0 (.diag 1))) = some .indexOutOfBounds ∧
+    errOf (step (run init [.new .avec 3 0 1, .softLink 0]) (.view 1 .diagMatrix)) = some .invalidOperation := by
   decide
 
 /-- allocation faults really occur and leave consistent counts: a symmetric matrix sharing data with a copy, resized
